@@ -134,6 +134,9 @@ class C15(InterpProp):
         payload = {'kind': 'interp', 'charts': [e.json for e in encs], 'ops': ops, 'record_deliveries': True}
         if raiser:
             payload['raiser'] = True
+        if rnd.random() < 0.2:
+            # the callables are bound methods of objects nothing else refers to
+            payload['method_targets'] = True
         return Case(payload, {'charts': charts}, model_ok=all(e.supported for e in encs) and not detacher and not mutator and not raiser)
 
     def shrink_candidates(self, case):
